@@ -3,7 +3,7 @@
    evaluator.rs, the handlers of lsp/references.rs); vocabulary: spec/NavSpec.v. *)
 From Coq Require Import List NArith Arith Bool Permutation.
 Import ListNotations.
-From Mos Require Import model.SymGraph model.Analysis spec.NavSpec proofs.SymGraphProofs proofs.NavProofs proofs.GreedyProofs proofs.FuelProofs.
+From Mos Require Import model.SymGraph model.Analysis spec.NavSpec proofs.SymGraphProofs proofs.NavProofs proofs.GreedyProofs proofs.FuelProofs proofs.UnassembledProofs.
 
 (* Within one pass: for every graph, scope, path (dotted, `super`, bubbling outward any number of scopes) the
    occurrence's last identifier is recorded as a usage of exactly the node `query` handed to the evaluator for that
@@ -120,6 +120,16 @@ Theorem C16_greedy_agrees_with_build : forall is_extra g' p,
   forall fuel, query_traversal_steps fuel g' scope p = query_traversal_steps fuel (without is_extra g') scope p.
 Proof. exact greedy_agrees. Qed.
 Print Assumptions C16_greedy_agrees_with_build.
+
+(* The repair (CodegenContext::analyse_unassembled): what the unassembled code inserted hangs on its new nodes; removing
+   those nodes gives back exactly the table the region started with -- for all tables and all such regions.  So the
+   table the program's own lookups see is the build's table. *)
+Theorem C16_unassembled_region_leaves_no_trace : forall g extra news,
+  (forall e, In e extra -> touches news e = true) ->
+  (forall e, In e g -> touches news e = false) ->
+  fold_left remove news (extra ++ g) = g.
+Proof. exact unassembled_region_leaves_no_trace. Qed.
+Print Assumptions C16_unassembled_region_leaves_no_trace.
 
 (* Out-of-fuel (the `None` of query_traversal_steps) is excluded by name in the statements above.  It never occurs on
    a table whose parent chain from the scope ends (depth d) once fuel exceeds d, and more fuel never changes an
